@@ -294,6 +294,20 @@ package ast
 //@   requires [node C13] v != nil && IsWalkNode(expr) && TreeWF()
 //@   modifies Tree, Opt
 //@   ensures [wf C13] TreeWF()
+// when the visitor asks to descend, every child of the node is walked (C09, C13: the optimizer's reference
+// counting and rewriting see the whole tree)
+//@   at "if v = v.Visit(expr); v == nil {" ghost descended = false
+//@   at "switch expr := expr.(type) {" ghost descended = true
+//@   must-call Walk [visits-action C09 C13] if descended && is(expr, "*ActionExpr") then expr == atcall(as(expr, "*ActionExpr").Expr)
+//@   must-call Walk [visits-and C09 C13] if descended && is(expr, "*AndExpr") then expr == atcall(as(expr, "*AndExpr").Expr)
+//@   must-call Walk [visits-labeled C09 C13] if descended && is(expr, "*LabeledExpr") then expr == atcall(as(expr, "*LabeledExpr").Expr)
+//@   must-call Walk [visits-not C09 C13] if descended && is(expr, "*NotExpr") then expr == atcall(as(expr, "*NotExpr").Expr)
+//@   must-call Walk [visits-plus C09 C13] if descended && is(expr, "*OneOrMoreExpr") then expr == atcall(as(expr, "*OneOrMoreExpr").Expr)
+//@   must-call Walk [visits-star C09 C13] if descended && is(expr, "*ZeroOrMoreExpr") then expr == atcall(as(expr, "*ZeroOrMoreExpr").Expr)
+//@   must-call Walk [visits-opt C09 C13] if descended && is(expr, "*ZeroOrOneExpr") then expr == atcall(as(expr, "*ZeroOrOneExpr").Expr)
+//@   must-call Walk [visits-rule C09 C13] if descended && is(expr, "*Rule") then expr == atcall(as(expr, "*Rule").Expr)
+//@   must-call Walk [visits-recovery-expr C09 C13] if descended && is(expr, "*RecoveryExpr") then expr == atcall(as(expr, "*RecoveryExpr").Expr)
+//@   must-call Walk [visits-recovery-recover C09 C13] if descended && is(expr, "*RecoveryExpr") then expr == atcall(as(expr, "*RecoveryExpr").RecoverExpr)
 // no panics clause: Walk must not panic on any node kind the front-end can build (C13)
 //@   loop#1 invariant [wf] TreeWF() && v != nil
 //@   loop#2 invariant [wf] TreeWF() && v != nil
@@ -307,6 +321,16 @@ package ast
 //@   ensures [kind C09] typeOf(res) == typeOf(expr)
 // the copy of a class does not share a backing array with the original (the optimizer appends to Chars/Ranges/UnicodeClasses in place)
 //@   ensures [no-shared-backing C09] is(res, "*CharClassMatcher") ==> fresh(bid(as(res, "*CharClassMatcher").Chars)) && fresh(bid(as(res, "*CharClassMatcher").Ranges)) && fresh(bid(as(res, "*CharClassMatcher").UnicodeClasses))
+// every child of the node is cloned in turn (a shallow copy of a child would be shared between inlined copies)
+//@   must-call cloneExpr [clones-action C09] if is(expr, "*ActionExpr") then expr == atcall(as(expr, "*ActionExpr").Expr)
+//@   must-call cloneExpr [clones-and C09] if is(expr, "*AndExpr") then expr == atcall(as(expr, "*AndExpr").Expr)
+//@   must-call cloneExpr [clones-labeled C09] if is(expr, "*LabeledExpr") then expr == atcall(as(expr, "*LabeledExpr").Expr)
+//@   must-call cloneExpr [clones-not C09] if is(expr, "*NotExpr") then expr == atcall(as(expr, "*NotExpr").Expr)
+//@   must-call cloneExpr [clones-plus C09] if is(expr, "*OneOrMoreExpr") then expr == atcall(as(expr, "*OneOrMoreExpr").Expr)
+//@   must-call cloneExpr [clones-star C09] if is(expr, "*ZeroOrMoreExpr") then expr == atcall(as(expr, "*ZeroOrMoreExpr").Expr)
+//@   must-call cloneExpr [clones-opt C09] if is(expr, "*ZeroOrOneExpr") then expr == atcall(as(expr, "*ZeroOrOneExpr").Expr)
+//@   must-call cloneExpr [clones-recovery-expr C09] if is(expr, "*RecoveryExpr") then expr == atcall(as(expr, "*RecoveryExpr").Expr)
+//@   must-call cloneExpr [clones-recovery-recover C09] if is(expr, "*RecoveryExpr") then expr == atcall(as(expr, "*RecoveryExpr").RecoverExpr)
 //@   ensures [wf C09 C13] IsExpr(res) && TreeWF()
 //@   loop#1 invariant [wf] 0 <= i && TreeWF() && forall k int :: 0 <= k && k < len(alts) ==> IsExpr(alts[k])
 //@   loop#2 invariant [wf] 0 <= i && TreeWF() && forall k int :: 0 <= k && k < len(exprs) ==> IsExpr(exprs[k])
@@ -334,6 +358,19 @@ package ast
 //@   requires [node] OptOK(r) && (expr0 == nil || IsWalkNode(expr0)) && TreeWF()
 //@   modifies Tree, Opt
 //@   nosafety
+// every child expression of every node kind is offered to optimizeRule (a rule reference that is never offered
+// is never inlined, while the bookkeeping already counts the referenced leaf rule as released once another
+// reference of the same rule was inlined: the leaf is then removed although it is still referenced)
+//@   must-call grammarOptimizer.optimizeRule [child-action C09] if is(expr0, "*ActionExpr") && as(expr0, "*ActionExpr") != nil then expr == old(as(expr0, "*ActionExpr").Expr)
+//@   must-call grammarOptimizer.optimizeRule [child-and C09] if is(expr0, "*AndExpr") && as(expr0, "*AndExpr") != nil then expr == old(as(expr0, "*AndExpr").Expr)
+//@   must-call grammarOptimizer.optimizeRule [child-labeled C09] if is(expr0, "*LabeledExpr") && as(expr0, "*LabeledExpr") != nil then expr == old(as(expr0, "*LabeledExpr").Expr)
+//@   must-call grammarOptimizer.optimizeRule [child-not C09] if is(expr0, "*NotExpr") && as(expr0, "*NotExpr") != nil then expr == old(as(expr0, "*NotExpr").Expr)
+//@   must-call grammarOptimizer.optimizeRule [child-plus C09] if is(expr0, "*OneOrMoreExpr") && as(expr0, "*OneOrMoreExpr") != nil then expr == old(as(expr0, "*OneOrMoreExpr").Expr)
+//@   must-call grammarOptimizer.optimizeRule [child-star C09] if is(expr0, "*ZeroOrMoreExpr") && as(expr0, "*ZeroOrMoreExpr") != nil then expr == old(as(expr0, "*ZeroOrMoreExpr").Expr)
+//@   must-call grammarOptimizer.optimizeRule [child-opt C09] if is(expr0, "*ZeroOrOneExpr") && as(expr0, "*ZeroOrOneExpr") != nil then expr == old(as(expr0, "*ZeroOrOneExpr").Expr)
+//@   must-call grammarOptimizer.optimizeRule [child-rule C09] if is(expr0, "*Rule") && as(expr0, "*Rule") != nil then expr == old(as(expr0, "*Rule").Expr)
+//@   must-call grammarOptimizer.optimizeRule [child-recovery-expr C09] if is(expr0, "*RecoveryExpr") && as(expr0, "*RecoveryExpr") != nil then expr == old(as(expr0, "*RecoveryExpr").Expr)
+//@   must-call grammarOptimizer.optimizeRule [child-recovery-recover C09] if is(expr0, "*RecoveryExpr") && as(expr0, "*RecoveryExpr") != nil then expr == old(as(expr0, "*RecoveryExpr").RecoverExpr)
 //@   at "c0.Chars = append(c0.Chars, c1.Chars...)" assert [merge-union C09] !c0.Inverted && !c1.Inverted && c0.IgnoreCase == c1.IgnoreCase
 //@   at "c1.Chars = append(c1.Chars, []rune(l0.Val)...)" assert [merge-lit-class C09] !c1.Inverted && l0.IgnoreCase == c1.IgnoreCase
 //@   at "c0.Chars = append(c0.Chars, []rune(l1.Val)...)" assert [merge-class-lit C09] !c0.Inverted && c0.IgnoreCase == l1.IgnoreCase
